@@ -201,6 +201,32 @@ func raceScenarios() []raceScenario {
 		vsched.Quiesce()
 	}, false})
 	// (vii) two goroutines call Server.Publish / Server.Subscribe concurrently
+	// (iv') an acknowledgement is being worked off by the subscriber's processor (which
+	// decodes the entries handed back by the ack queue outside its lock) while another
+	// publisher's processor registers the next delivery in the same queue
+	out = append(out, raceScenario{"PUBACK being processed || next delivery registered", func() {
+		t := newTD()
+		p1 := t.connect("P1", 0, 65535, false)
+		p2 := t.connect("P2", 0, 65535, false)
+		s := t.connect("S", 0, 65535, false)
+		t.subscribe("S", "g", 1)
+		s.rc.AutoAck = false
+		p1.rc.Send(&refcodec.Packet{Type: refcodec.PUBLISH, Topic: []byte("g"), QoS: 1, ID: 2, Payload: []byte("first-message")})
+		t.settleExcept()
+		var id uint16
+		for _, pk := range s.rc.Take() {
+			if pk.Type == refcodec.PUBLISH {
+				id = pk.ID
+			}
+		}
+		if id == 0 || vsched.Failed() {
+			return
+		}
+		vsched.Mark()
+		s.rc.Conn.Write(refcodec.Encode(&refcodec.Packet{Type: refcodec.PUBACK, ID: id}))
+		p2.rc.Conn.Write(refcodec.Encode(&refcodec.Packet{Type: refcodec.PUBLISH, Topic: []byte("g"), QoS: 1, ID: 3, Payload: []byte("two")}))
+		vsched.Quiesce()
+	}, true})
 	out = append(out, raceScenario{"concurrent in-process Publish x2 + Subscribe", func() {
 		t := newTD()
 		t.connect("A1", 0, 65535, false)
